@@ -52,7 +52,13 @@ impl<'a, T> Iterator for Iter<'a, T> {
     type Item = &'a T;
 
     fn next(&mut self) -> Option<Self::Item> {
-        self.impl_next_rec(self.view.dimensions() - 1)
+        // Once all elements have been yielded, the iterator must stay exhausted; a view with no
+        // remaining axes (from a one-dimensional array) holds exactly one element
+        if self.index >= self.view.shape.elements() {
+            return None;
+        }
+
+        self.impl_next_rec(self.view.dimensions().saturating_sub(1))
     }
 
     fn size_hint(&self) -> (usize, Option<usize>) {
